@@ -223,6 +223,73 @@ func W[T any](p *T, site string) *T {
 	return p
 }
 
+// Re / We record a read / write of a slice element.  Elements are tracked like
+// any other variable but are never preemption or stall points (they are far too
+// many; the enclosing field accesses already are).
+func Re[T any](p *T, site string) *T {
+	if s := S; s != nil && !s.aborting {
+		s.elementAccess(unsafe.Pointer(p), false, site)
+	}
+	return p
+}
+
+func We[T any](p *T, site string) *T {
+	if s := S; s != nil && !s.aborting {
+		s.elementAccess(unsafe.Pointer(p), true, site)
+	}
+	return p
+}
+
+func (s *Sim) elementAccess(p unsafe.Pointer, write bool, site string) {
+	t := s.cur
+	if t == nil {
+		return
+	}
+	sh := s.elems[p]
+	if sh == nil {
+		// shadow cells for elements come from a slab: there are many of them
+		if len(s.slab) == 0 {
+			s.slab = make([]shadowVar, 256)
+		}
+		sh = &s.slab[0]
+		s.slab = s.slab[1:]
+		sh.firstTask = t.id
+		s.elems[p] = sh
+	} else if sh.firstTask != t.id {
+		sh.multi = true
+	} else if !write && !sh.multi && sh.hasWrite == false && len(sh.reads) == 1 && sh.reads[0].task == t.id {
+		// fast path: re-read by the only task that ever touched it
+		sh.reads[0].clock = t.vc.get(t.id)
+		return
+	}
+	me := accessRec{task: t.id, clock: t.vc.get(t.id), site: site, label: t.label}
+	if write {
+		if sh.hasWrite && sh.write.task != t.id && sh.write.clock > t.vc.get(sh.write.task) {
+			s.reportRace("write-write", sh.write, me)
+		}
+		for _, r := range sh.reads {
+			if r.task != t.id && r.clock > t.vc.get(r.task) {
+				s.reportRace("read-write", r, me)
+			}
+		}
+		sh.write = me
+		sh.hasWrite = true
+		sh.written = true
+		sh.reads = sh.reads[:0]
+		return
+	}
+	if sh.hasWrite && sh.write.task != t.id && sh.write.clock > t.vc.get(sh.write.task) {
+		s.reportRace("write-read", sh.write, me)
+	}
+	for i := range sh.reads {
+		if sh.reads[i].task == t.id {
+			sh.reads[i] = me
+			return
+		}
+	}
+	sh.reads = append(sh.reads, me)
+}
+
 // AccessYield is the preemption point between the load and the store of a
 // read-modify-write statement on a shared variable (x++, x op= y).
 func AccessYield[T any](p *T) {
